@@ -110,6 +110,56 @@ func drain(it iter, r *rand.Rand) int {
 	return n
 }
 
+// firstSamples: the statistics collector while operation types, error kinds and latency trackers
+// are seen for the FIRST time (map entries being created) under concurrent readers. Each round
+// uses a fresh collector: three goroutines read (GetStats / GetStatsFiltered), two record first
+// samples of new names. A panic or fatal error ends the process (the parent reports it).
+func firstSamples(seed int64, rounds int) {
+	for rd := 0; rd < rounds; rd++ {
+		coll := stats.NewAtomicCollector()
+		var stop atomic.Bool
+		var wg, readers sync.WaitGroup
+		for p := 0; p < 3; p++ {
+			readers.Add(1)
+			go func(p int) {
+				defer readers.Done()
+				for !stop.Load() {
+					if p == 0 {
+						for k, v := range coll.GetStatsFiltered("op") {
+							_, _ = k, v
+						}
+					} else {
+						for k, v := range coll.GetStats() {
+							_, _ = k, v
+						}
+					}
+				}
+			}(p)
+		}
+		for t := 0; t < 2; t++ {
+			wg.Add(1)
+			go func(t int) {
+				defer wg.Done()
+				r := rand.New(rand.NewSource(seed*7 + int64(rd*2+t)))
+				for i := 0; i < 24; i++ {
+					op := stats.OperationType(fmt.Sprintf("op%d-%d", t, i))
+					switch r.Intn(4) {
+					case 0:
+						coll.TrackOperation(op)
+					case 1:
+						coll.TrackError(fmt.Sprintf("err%d-%d", t, i))
+					default:
+						coll.TrackOperationWithLatency(op, uint64(r.Intn(1000)))
+					}
+				}
+			}(t)
+		}
+		wg.Wait()
+		stop.Store(true)
+		readers.Wait()
+	}
+}
+
 func main() {
 	dir := flag.String("dir", "", "database directory (created)")
 	seed := flag.Int64("seed", 1, "seed of the operation streams and of the yield perturbation")
@@ -145,6 +195,9 @@ func main() {
 	if *yield != 0 {
 		setYield(uint64(*seed))
 	}
+	fmt.Fprintln(os.Stderr, "STRESS-PHASE first-samples")
+	firstSamples(*seed, 400)
+	fmt.Fprintln(os.Stderr, "STRESS-PHASE stress")
 	e, err := engine.NewEngineFacade(*dir)
 	if err != nil {
 		fmt.Fprintln(os.Stderr, "kevo_stress: open:", err)
